@@ -646,11 +646,14 @@ def Spec.toElement : Spec → Except Exc (Element Value)
       | .ok st => .ok { run := .method, runDen := st.run, rerunDen := fun past => st.rerun past
                         asValue := some (objValue "Run") }
   | .runNamed inner =>
-    -- `Run(el, run="run")`: `callable(getattr(el, "run", None))`, else `LenaTypeError` (no conversion)
+    -- `Run(el, run="run")`: `callable(getattr(el, "run", None))`, else `LenaTypeError` (no conversion);
+    -- for `el is None` (the junk object) `self.run = run`, the string: an attribute that is not callable
     match Spec.toElement inner with
     | .error e => .error e
     | .ok el =>
-      if el.run.callable then
+      if (match inner with | .junk => true | _ => false) then
+        .ok { run := .value, asValue := some (objValue "Run") }
+      else if el.run.callable then
         .ok { run := .method, runDen := el.runDen, rerunDen := el.rerunDen, asValue := some (objValue "Run") }
       else .error .lenaTypeError
   | .runNone f =>
